@@ -3,6 +3,7 @@ import SimilarVerif.Props.C01
 import SimilarVerif.Lemmas.Capture
 import SimilarVerif.Lemmas.MyersTotal
 import SimilarVerif.Lemmas.CaptureExact
+import SimilarVerif.Lemmas.CaptureExactClock
 /-!
 # C11 — every captured op carries exact positions in both sequences
 
@@ -13,7 +14,13 @@ Delivered: (a) the concrete counterexample on the shipped model (it is exactly w
 every index exact, for all valid scripts; (c) the repair touches nothing but carried indices, which
 is what makes the attribution of a failing case to the known finding sound; (d) the other stages are
 exact: LCS raw streams, Myers raw streams without deadline (relative to the snake hypotheses),
-`Replace`.
+`Replace`; (e) end to end with the repaired swap, `capture_diff` returns exact positions for ALL THREE algorithms and
+EVERY clock (`capture_exact_repaired_every_clock`) — also when a deadline expires in the middle of Myers or
+Patience.  The deadline case is no longer open: the raw fallback pair `delete; insert` of Myers is not `Exact`
+(`expired_deadline_raw_not_exact`), only near-exact (the Insert carries the old position before its Delete), but
+the repaired clean-up swaps every such pair at least once and recomputes both carried indices, so the CAPTURED ops
+are exact (`CaptureClock.capture_exact_of_near`, `CompactL.cleanup_loose_exact`).  The statements restricted to
+`w.clock = none` (`capture_exact_repaired_total`, …) are kept; they are instances.
 -/
 namespace SimilarVerif.C11
 open SimilarVerif Spec
@@ -145,9 +152,29 @@ theorem capture_exact_repaired_total (alg : Alg) (E : Env) (os oe ns ne : Nat) (
       Walk (eqB E) os ns ops oe ne ∧ Exact os ns ops ∧ Alternating ops :=
   CaptureExact.capture_exact_repaired_total alg E os oe ns ne w ho hn hb hp hclk
 
-/-- **negative side** (why "no deadline" for Myers and Patience): with an expired deadline the raw Myers
-fallback is `delete; insert` with the insert carrying the old position BEFORE its delete — allowed by C01's
-`Carried`, but not `Exact` -/
+/-- **all three algorithms, EVERY clock** (strictly stronger than `capture_exact_repaired_total`: no `w.clock = none`):
+repaired swap, in-bounds ranges — `capture_diff` returns a valid, alternating script in which every op carries exact
+positions in both sequences, also when a deadline expires in the middle of Myers or Patience (the raw fallback pair
+`delete; insert` is only near-exact, `expired_deadline_raw_not_exact`; the repaired clean-up swaps it and recomputes
+both carried indices) -/
+theorem capture_exact_repaired_every_clock' (alg : Alg) (E : Env) (os oe ns ne : Nat) (w : World)
+    (ho : os ≤ oe) (hn : ns ≤ ne) (hb : InBounds E os oe ns ne)
+    (hp : alg = .patience → CaptureNF.SameSideBounds E os oe ns ne) :
+    ∃ ops w', captureDiff alg E true os oe ns ne w = .ok (ops, w') ∧
+      Walk (eqB E) os ns ops oe ne ∧ Exact os ns ops ∧ Alternating ops :=
+  CaptureClock.capture_exact_repaired_every_clock' alg E os oe ns ne w ho hn hb hp
+
+/-- the same under the headline hypothesis `RangesInBounds`: every algorithm, every world — `capture_diff` with the
+repaired swap returns, and every captured op carries exact positions -/
+theorem capture_exact_repaired_every_clock (alg : Alg) (E : Env) (os oe ns ne : Nat) (w : World)
+    (hr : Headline.RangesInBounds E os oe ns ne) :
+    ∃ ops w', captureDiff alg E true os oe ns ne w = .ok (ops, w') ∧ Exact os ns ops :=
+  CaptureClock.capture_exact_repaired_every_clock alg E os oe ns ne w hr
+
+/-- **negative side, RAW stream only** (why the route "exact raw stream ⟹ exact captured ops" needs "no deadline" for
+Myers and Patience, and `capture_exact_repaired_every_clock` goes through near-exactness instead): with an expired
+deadline the raw Myers fallback is `delete; insert` with the insert carrying the old position BEFORE its delete —
+allowed by C01's `Carried`, but not `Exact` -/
 theorem expired_deadline_raw_not_exact :
     (rawTrace .myers (Env.ofSeqs #[0, 1] #[2, 3]) 0 2 0 2 { clock := some 0 }).map (·.1.trace) =
       .ok [.op (.delete 0 2 0), .op (.insert 0 0 2), .finish] ∧
@@ -172,6 +199,33 @@ example (alg : Alg) :=
           rcases ‹j = 0 ∨ j = 1 ∨ j = 2› with rfl | rfl | rfl <;> decide)
     rfl
 
+/-- non-vacuity under an EXPIRING deadline (`[1,0]` vs `[0,0,0]`, clock `some 0`, Myers and Patience): the raw stream
+is the fallback pair and the common suffix, its Insert carries old index 0 (true 1): not exact; the repaired
+`capture_diff` returns the exact list (the Insert survives `Replace` as a stand-alone op with the exact old index 2),
+the shipped one `insert(1,1,2)`: inexact -/
+example : ∀ alg : Alg, alg ≠ .lcs →
+    (rawTrace alg (Env.ofSeqs #[1, 0] #[0, 0, 0]) 0 2 0 3 { clock := some 0 }).map (·.1.trace) =
+      .ok [.op (.delete 0 1 0), .op (.insert 0 0 2), .op (.equal 1 2 1), .finish] ∧
+    (captureDiff alg (Env.ofSeqs #[1, 0] #[0, 0, 0]) true 0 2 0 3 { clock := some 0 }).map (·.1) =
+      .ok [.delete 0 1 0, .equal 1 0 1, .insert 2 1 2] ∧
+    (captureDiff alg (Env.ofSeqs #[1, 0] #[0, 0, 0]) false 0 2 0 3 { clock := some 0 }).map (·.1) =
+      .ok [.delete 0 1 0, .equal 1 0 1, .insert 1 1 2] := by
+  intro alg h; cases alg
+  · exact ⟨by rfl, by rfl, by rfl⟩
+  · exact ⟨by rfl, by rfl, by rfl⟩
+  · exact absurd rfl h
+example : ¬ Exact 0 0 [.delete 0 1 0, .insert 0 0 2, .equal 1 2 1] ∧
+    Exact 0 0 [.delete 0 1 0, .equal 1 0 1, .insert 2 1 2] ∧
+    ¬ Exact 0 0 [.delete 0 1 0, .equal 1 0 1, .insert 1 1 2] := by
+  simp only [Exact]; decide
+/-- … and the hypotheses of `capture_exact_repaired_every_clock` hold on this input, in this world -/
+example (alg : Alg) :=
+  capture_exact_repaired_every_clock alg (Env.ofSeqs #[1, 0] #[0, 0, 0]) 0 2 0 3 { clock := some 0 }
+    (Headline.RangesInBounds.of_eqPattern (by decide) (by decide)
+      (IdentP.eqPattern_ofSeqs #[1, 0] #[0, 0, 0] 0 0 0 2 0 3 (by decide) (by decide) (by decide) (by decide)))
+
+#print axioms capture_exact_repaired_every_clock'
+#print axioms capture_exact_repaired_every_clock
 #print axioms lcs_raw_exact_noReplace
 #print axioms capture_lcs_exact_repaired
 #print axioms patience_raw_exact
